@@ -59,7 +59,7 @@ def main():
     chk.add("notebook-merge", r)
     try:
         from . import fam_render
-        r = runner.explore("harness.fam_render", fam_render.shards(t, (PROP,), kn), nproc=common.nproc(),
+        r = runner.explore("harness.fam_render", fam_render.shards(t, (PROP,), kn, lite=True), nproc=common.nproc(),
                            budget_s=300 if t == "quick" else 2400)
         chk.add("rendering", r)
     except ImportError:
